@@ -436,6 +436,8 @@ func ruleRec(c *Ctx) {
 				for _, f := range fam {
 					canon[fnName(f)] = x
 				}
+			} else if len(fam) == 1 && fnName(fam[0]) != x {
+				canon[fnName(fam[0])] = x // renamed: keeps its place under the listed name
 			}
 		}
 	}
